@@ -9,7 +9,7 @@ PROPERTY = PropertySpec(
                 'when requested; symbolic names, 0-3 variables), each column bound to that series, index = the span object, status / iterations appended iff '
                 'requested and in that order; linker_to_dataframes exports the linker and every submodel exactly once with the same flags under their ids. '
                 'The table owns its data (DataFrame built with its default copy). from_dataframe: the class is instantiated once with the index as span (list, or the pandas time index itself) and each column`s values under its name, nothing '
-                'filled in or dropped; dataframe_to_symbols: one Symbol per row in order, missing values become None. What pandas does with the columns (dtype preservation, missing values, index fidelity) is bounded.',
+                'filled in or dropped; dataframe_to_symbols: one Symbol per row in order, missing values become None. symbols_to_dataframe: pandas is handed exactly one record per symbol in list order, the six fields in field order with the symbol`s own values (0-3 symbols, symbolic contents), nothing converted, no further argument. What pandas does with the columns (dtype preservation, missing values, index fidelity) is bounded.',
     level_text='proof obligations for the column construction / flag forwarding + bounded round trips on the real tools: the substance of this property is what pandas does with the columns fsic hands it (dtype '
                'preservation, missing values, index fidelity), which no contract on fsic\'s functions can decide; columns, order, flags, index, values '
                'and dtypes are compared for models and linkers over span types and flag combinations; symbol lists round-tripped',
